@@ -40,6 +40,17 @@ def main():
                 ra = sh(["git", "apply", "--3way", str(d / "patch.diff")], cwd=wt)
             final["patch_applies"] = ra.returncode == 0
             if ra.returncode == 0:
+                # does the change still break the property on the current HEAD? (a later fix: commit may neutralise it)
+                demo = next((d / n for n in ("demo.py", "test_demo.py") if (d / n).exists()), None)
+                if demo is not None:
+                    denv = dict(os.environ, PYTHONPATH=str(wt / "src"), PYTHONDONTWRITEBYTECODE="1")
+                    denv.pop("SCHEMATHESIS_VERIF", None)
+                    cmd = (["/venv/bin/python", "-m", "pytest", "-q", "-p", "no:cacheprovider", str(demo)]
+                           if demo.name.startswith("test_") else ["/venv/bin/python", str(demo)])
+                    try:
+                        final["demo_fails_on_patched_head"] = sh(cmd, cwd=wt, env=denv, timeout=900).returncode != 0
+                    except subprocess.TimeoutExpired:
+                        final["demo_fails_on_patched_head"] = None
                 for c in checks:
                     env = dict(os.environ, VERIF_REPO=str(wt), PYTHONPATH=str(wt / "src"))
                     r = sh(["./check", c], cwd=ROOT, env=env, timeout=3600)
@@ -55,6 +66,8 @@ def main():
         real = [c for c in det if final[c]["with_failing_input"]]
         rows.append((sid, pid, meta.get("summary", "")[:150].replace("|", "/"), meta.get("what_it_needs_to_manifest", "")[:150].replace("|", "/"),
                      "patch no longer applies" if not final.get("patch_applies") else
+                     ("neutralised: with the fix: commits now in /repo its demonstration passes (the property holds)"
+                      if final.get("demo_fails_on_patched_head") is False and not det else "") or
                      (", ".join(f"{c} (failing input)" if c in real else f"{c} (correspondence only)" for c in det) or "MISSED")))
         print(rows[-1][0], "->", rows[-1][-1], flush=True)
     out = ["# Seeded changes and which check reports them", "",
